@@ -4,7 +4,7 @@
 From Coq Require Import ZArith List Bool.
 Import ListNotations.
 Require Import PV.Model.GraphAlg PV.Model.Split PV.Proofs.GraphSpec PV.Proofs.GraphBounded PV.Proofs.SplitBounded.
-Require Import PV.Proofs.ParMisProofs PV.Proofs.ParMisTerm.
+Require Import PV.Proofs.ParMisProofs PV.Proofs.ParMisTerm PV.Proofs.RsIndep.
 
 (* first-pass Ruge-Stuben: 0/1 flags, a C point whenever there is an edge, and on symmetric
    patterns an independent and dominating C set *)
@@ -27,6 +27,20 @@ Print Assumptions C13_bounded_cljp_cover.
 Theorem C13_bounded_pmis_independent_dominating : forall g, In g graphs_le4 -> ok_mis_parallel g = true.
 Proof. exact bounded_mis_parallel. Qed.
 Print Assumptions C13_bounded_pmis_independent_dominating.
+
+(* first-pass Ruge-Stuben, UNBOUNDED: for every strength pattern whose transpose T is symmetric as a graph (any
+   number of vertices, any influence vector, whatever the lambda buckets hold -- they only fix the order in
+   which undecided vertices are promoted): 0/1 flags and an INDEPENDENT coarse set *)
+Theorem C13_rs_first_pass_independent : forall (N : nat) (Sp Sj Tp Tj : list Z),
+  (forall i, (0 <= i < Z.of_nat N)%Z -> forall j, In j (nbrs Tp Tj i) -> (0 <= j < Z.of_nat N)%Z) ->
+  (forall i j, (0 <= i < Z.of_nat N)%Z -> In j (nbrs Tp Tj i) -> In i (nbrs Tp Tj j)) ->
+  forall infl : list Z,
+  let s := rs_cf_splitting (Z.of_nat N) Sp Sj Tp Tj infl in
+  length s = N /\
+  (forall k, (0 <= k < Z.of_nat N)%Z -> get s k = 0%Z \/ get s k = 1%Z) /\
+  (forall i j, (0 <= i < Z.of_nat N)%Z -> get s i = 1%Z -> In j (nbrs Tp Tj i) -> j <> i -> get s j <> 1%Z).
+Proof. exact rs_first_pass_independent. Qed.
+Print Assumptions C13_rs_first_pass_independent.
 
 (* PMIS, UNBOUNDED: the splitting is the parallel maximal independent set of the symmetrised strength graph
    with the kernel's codes (-1 undecided, 1 coarse, 0 fine).  For every symmetric graph of any size and any
